@@ -42,6 +42,10 @@ struct Trial {
     /// of the vertex program process many events, so thread-local state must not leak
     #[serde(default)]
     after_other: bool,
+    /// clock seam: the trial's thread sees a monotonic clock that jumps forward by 40 s .. 2 h on
+    /// seeded reads (process stopped, machine suspended); None = the real clock
+    #[serde(default)]
+    clock: Option<u64>,
 }
 
 #[derive(Clone, Debug, Serialize, Deserialize, PartialEq)]
@@ -140,7 +144,7 @@ impl Check for C11Check {
         true
     }
     fn rule(&self) -> String {
-        "scenario = one simulated main event (forward-model event with 2-5 tracks and ADC noise; synthetic hit pattern incl. seam blocks and full ring; event with one event-builder inconsistency, notably duplicated banks whose copies differ; extreme-value event) and a schedule of trials: bank-list permutations {identity, reversal, rotations, seeded shuffles (PWB chunks scattered among other banks), adjacent transpositions - ALL of them for events of <= 40 banks, sampled otherwise} x hash keys (>= 4 distinct per event, installed through the getrandom seam on a fresh 64 MiB-stack thread per trial) x placement {twice on the same thread, another thread, after a large event and 1-2 mostly REJECTED events (any of the 35 event-builder faults, extreme packets) computed on the same thread, two other PROCESSES (child harness processes, each under its own hash key from the start)}; each scenario exists for the release and the overflow-checked build. Oracle: every trial of one event returns the same digest = Err, or (u32 timestamp, bit patterns of t/phi/z/wire_amplitude/pad_amplitude of every avalanche in list order, bit patterns of the vertex). Non-trivial = at least 4 trials executed on an event with >= 2 banks; distinct = distinct event-log hashes (bank bytes + trial list + digest).".into()
+        "scenario = one simulated main event (forward-model event with 2-5 tracks and ADC noise; synthetic hit pattern incl. seam blocks and full ring; event with one event-builder inconsistency, notably duplicated banks whose copies differ; extreme-value event) and a schedule of trials: bank-list permutations {identity, reversal, rotations, seeded shuffles (PWB chunks scattered among other banks), adjacent transpositions - ALL of them for events of <= 40 banks, sampled otherwise} x hash keys (>= 4 distinct per event, installed through the getrandom seam on a fresh 64 MiB-stack thread per trial) x placement {twice on the same thread, another thread, after a large event and 1-2 mostly REJECTED events (any of the 35 event-builder faults, extreme packets) computed on the same thread, two other PROCESSES (child harness processes, each under its own hash key from the start), a thread whose monotonic clock jumps forward by 40 s .. 2 h on seeded reads}; each scenario exists for the release and the overflow-checked build. Oracle: every trial of one event returns the same digest = Err, or (u32 timestamp, bit patterns of t/phi/z/wire_amplitude/pad_amplitude of every avalanche in list order, bit patterns of the vertex). Non-trivial = at least 4 trials executed on an event with >= 2 banks; distinct = distinct event-log hashes (bank bytes + trial list + digest).".into()
     }
     fn assumptions(&self) -> Vec<String> {
         vec![
@@ -170,7 +174,7 @@ impl Check for C11Check {
             0 | 1 => Kind::Fwd { tracks: r.usize(2, 5), noise: *r.pick(&[0.0, 2.0, 5.0]), amp_scale: 1.0 },
             // hit patterns on calibrated real runs (maps, delays, calibration tables of that run)
             2 if i % 16 == 10 => Kind::RealHits { run: *r.pick(&[11084u32, 11192, 12000, 9277, 10418]), pattern: *r.pick(&[3u8, 1, 7, 5, 3]), n: *r.pick(&[256usize, 40, 256]) },
-            2 => Kind::Hits { pattern: r.below(23) as u8, n: *r.pick(&[13usize, 20, 40, 256]) },
+            2 => Kind::Hits { pattern: r.below(24) as u8, n: *r.pick(&[13usize, 20, 40, 256]) },
             // consistent events on calibrated real runs with every wire and several pad groups:
             // whatever the library derives from its calibration tables takes part in the result
             5 if i % 16 == 5 => Kind::EvFault {
@@ -188,17 +192,18 @@ impl Check for C11Check {
         let heavy = matches!(event, Kind::Fwd { .. } | Kind::Hits { .. } | Kind::RealHits { .. });
         let k: Vec<u64> = (0..4).map(|_| r.next_u64()).collect();
         let mut trials = vec![
-            Trial { perm: Perm::Identity, hash_key: k[0], twice: true, after_other: false },
-            Trial { perm: Perm::Reversal, hash_key: k[1], twice: false, after_other: false },
-            Trial { perm: Perm::Shuffle(r.next_u64()), hash_key: k[2], twice: false, after_other: false },
-            Trial { perm: Perm::Shuffle(r.next_u64()), hash_key: k[3], twice: false, after_other: false },
-            Trial { perm: Perm::Identity, hash_key: k[3], twice: false, after_other: false },
-            Trial { perm: Perm::Rotate(r.usize(1, 50)), hash_key: k[1], twice: false, after_other: false },
+            Trial { perm: Perm::Identity, hash_key: k[0], twice: true, after_other: false, clock: None },
+            Trial { perm: Perm::Reversal, hash_key: k[1], twice: false, after_other: false, clock: None },
+            Trial { perm: Perm::Shuffle(r.next_u64()), hash_key: k[2], twice: false, after_other: false, clock: None },
+            Trial { perm: Perm::Shuffle(r.next_u64()), hash_key: k[3], twice: false, after_other: false, clock: None },
+            Trial { perm: Perm::Identity, hash_key: k[3], twice: false, after_other: false, clock: None },
+            Trial { perm: Perm::Rotate(r.usize(1, 50)), hash_key: k[1], twice: false, after_other: false, clock: None },
         ];
-        trials.push(Trial { perm: Perm::Identity, hash_key: k[2], twice: false, after_other: true });
+        trials.push(Trial { perm: Perm::Identity, hash_key: k[2], twice: false, after_other: true, clock: None });
+        trials.push(Trial { perm: Perm::Identity, hash_key: k[0], twice: false, after_other: false, clock: Some(r.next_u64() | 1) });
         if heavy {
             for _ in 0..2 {
-                trials.push(Trial { perm: Perm::Transpose(r.usize(0, 500)), hash_key: *r.pick(&k), twice: false, after_other: false });
+                trials.push(Trial { perm: Perm::Transpose(r.usize(0, 500)), hash_key: *r.pick(&k), twice: false, after_other: false, clock: None });
             }
         }
         // predecessors on the same thread (separate stream: the other dimensions keep their values)
@@ -234,7 +239,7 @@ impl Check for C11Check {
         if scn.all_transpositions && banks.len() >= 2 && banks.len() <= 40 {
             let key = trials.first().map(|t| t.hash_key).unwrap_or(1);
             for i in 0..banks.len() - 1 {
-                trials.push(Trial { perm: Perm::Transpose(i), hash_key: key ^ (i as u64 % 3), twice: false, after_other: false });
+                trials.push(Trial { perm: Perm::Transpose(i), hash_key: key ^ (i as u64 % 3), twice: false, after_other: false, clock: None });
             }
             stats.probe("adjacent_transpositions_exhaustive");
         }
@@ -267,7 +272,12 @@ impl Check for C11Check {
             if !preds.is_empty() {
                 stats.probe("trials_after_rejected_or_extreme_events_on_same_thread");
             }
+            let clock = t.clock;
+            if clock.is_some() {
+                stats.probe("trials_under_a_jumping_clock");
+            }
             let res = with_hash_key(t.hash_key, || {
+                crate::sclock::set_clock_schedule(clock);
                 if let Some((orun, obanks)) = &other {
                     let _ = digest(*orun, obanks);
                 }
@@ -307,7 +317,7 @@ impl Check for C11Check {
                         Some((d0, s0, t0)) => {
                             if *d0 != a.0 {
                                 let what = if (s0 == "Err") != (a.1 == "Err") { "ok-vs-err" } else { "bits-differ" };
-                                let cause = if t0.after_other != t.after_other && t0.perm == t.perm { "hash-key-or-what-the-thread-computed-before" } else if t0.perm == t.perm { "hash-key-or-thread" } else if t0.hash_key == t.hash_key { "bank-order" } else { "bank-order-or-hash-key" };
+                                let cause = if t0.clock != t.clock && t0.perm == t.perm && t0.hash_key == t.hash_key { "the-clock" } else if t0.after_other != t.after_other && t0.perm == t.perm { "hash-key-or-what-the-thread-computed-before" } else if t0.perm == t.perm { "hash-key-or-thread" } else if t0.hash_key == t.hash_key { "bank-order" } else { "bank-order-or-hash-key" };
                                 viol.push(Violation {
                                     invariant: format!("C11.result-depends-on-{cause}"),
                                     signature: format!("{what}:{}", kind_name(&scn.event)),
